@@ -13,6 +13,8 @@ From Coq Require Import List Arith Bool Permutation.
 Import ListNotations.
 From TF Require Import Model.Crash Proofs.Crash.
 From TF Require Model.Dispatch Proofs.Dispatch.
+From Coq Require ZArith.
+From TF Require Lib.GoInt Lib.Bytes Proofs.Geometry Model.CRC Model.Sidecar Model.Resume Proofs.ResumeFile.
 
 (* (a) along any chain of runs and kills - Restart events may occur anywhere,
    any number of times - every bitmap a run starts from is backed by the file *)
@@ -48,3 +50,47 @@ Theorem C04_sender_respects_plan : forall n evs,
   (forall i, In i (Proofs.Dispatch.sent_known g) -> Model.Dispatch.plan_skips (Model.Dispatch.plan s) i = false).
 Proof. exact Proofs.Dispatch.main_pass_once. Qed.
 Print Assumptions C04_sender_respects_plan.
+
+(* ------------------------------------------------------------------------- *)
+(* The three parts composed at file level, bytes included (Model/Resume.v: the
+   receiver's handling of FileBegin with its stale-data test, Truncate and
+   load-or-create, the FileResumeInfo it sends, the sender's applyResumeInfo and
+   verification, its main pass, the positional writes of every chunk sent):
+   if the metadata found on disk is honest - which (a) guarantees after any chain
+   of interrupted runs - the second run leaves exactly the source's bytes, for
+   every file size, chunk size, metadata content, verification tail and hash
+   function.  ([geom_dom] is the domain of C19; [o_file] is the data file once
+   every frame the sender emitted has been written.) *)
+Module File.
+Import ZArith TF.Lib.GoInt TF.Lib.Bytes TF.Proofs.Geometry TF.Model.CRC TF.Model.Sidecar TF.Model.Resume TF.Proofs.ResumeFile.
+Local Open Scope Z_scope.
+
+Theorem C04_resumed_file_identical : forall h rq d src tail vnone br o,
+  geom_dom (rq_size rq) (rq_cs rq) -> zlen src = rq_size rq ->
+  recv_begin h rq d = Ret br ->
+  resume_outcome h rq d src tail vnone = Ret o ->
+  (forall i, 0 <= i < br_total br -> bit_get (sc_bitmap (br_sc br)) (br_total br) i = true ->
+     chunk_at (rq_cs rq) (br_file br) i = chunk_at (rq_cs rq) src i) ->
+  o_file o = src.
+Proof. exact resume_identical_honest. Qed.
+Print Assumptions C04_resumed_file_identical.
+
+(* no usable metadata (first run killed before its first flush, metadata
+   unreadable, data file missing or of another length): everything is sent *)
+Theorem C04_unloaded_file_identical : forall h rq d src tail vnone br o,
+  geom_dom (rq_size rq) (rq_cs rq) -> zlen src = rq_size rq ->
+  recv_begin h rq d = Ret br -> br_loaded br = false ->
+  resume_outcome h rq d src tail vnone = Ret o ->
+  o_file o = src.
+Proof. exact resume_identical_unloaded. Qed.
+Print Assumptions C04_unloaded_file_identical.
+
+(* non-vacuity: 5 bytes, chunk size 2, chunks 0 and 1 recorded and intact, chunk
+   2 missing on disk (zeros after Truncate): the resumed run sends chunks 1 (the
+   verification tail) and 2 and ends with the source *)
+Example C04_file_example :
+  exists o, resume_outcome crc32c (mkRq [97] 5 2 1)
+              (mkDisk (Some [1; 2; 3; 4; 0]) (Some (serialise (mkSc 2 5 3 [97] [3]))) None) [1; 2; 3; 4; 5] 1 false = Ret o /\
+            o_loaded o = true /\ o_sent o = [1; 2] /\ o_file o = [1; 2; 3; 4; 5].
+Proof. eexists. vm_compute. repeat split; reflexivity. Qed.
+End File.
